@@ -62,6 +62,8 @@ def table_files(p):
 LISTS = {
     "A": "{p}a.ctb", "AP": "{p}a.ct", "AB": "{p}a.ctb,{p}b.ctb", "B2": "{p}a.ct,{p}b.ctb",
     "BAD": "{p}bad.ctb", "MISS": "{p}miss.ctb", "ABAD": "{p}a.ctb,{p}bad.ctb", "SELF": "{p}self.ctb",
+    # a resolvable file followed by one that does not exist: the resolver gives up with part of its answer built
+    "AMISS": "{p}a.ctb,{p}miss.ctb",
 }
 GOOD = {"A", "AP", "AB", "B2"}
 # the last rule makes a table without a hyphenation dictionary grow by 250000 bytes: the block moves and
